@@ -428,6 +428,13 @@ def run(chk: common.Check):
         cs = [(f"ltfam-{k}-{i}", gen.lt_family(fr.sub(str(i)))) for i in range(min(100, n_fam - k))]
         b.run(rng.sub(f"famrun{k}"), cs, chk.tier, passes_list=(0, 1, 3))
         chk.count("family:lt-over-max-mixed-durations", len(cs))
+    # 5. contention between Max options of different sizes (what the capacity-constraint purge pass reasons about)
+    n_pf = 40 if quick else 400
+    for k in range(0, n_pf, 100):
+        fr = rng.sub(f"pfam{k}")
+        cs = [(f"purgefam-{k}-{i}", gen.purge_family(fr.sub(str(i)))) for i in range(min(100, n_pf - k))]
+        b.run(rng.sub(f"pfamrun{k}"), cs, chk.tier, passes_list=(0, 2, 3))
+        chk.count("family:max-options-of-different-sizes-under-contention", len(cs))
     for sig, rep in b.findings:
         chk.violation(sig, rep)
     chk.extra["suite_s"] = round(time.time() - t0, 1)
